@@ -212,6 +212,8 @@ def main(tier):
         jobs += [(job_shift, (n, nb, it, axis, b, r)) for n, nb in ((6, 2), (9, 1)) for it in (1, 2, 3, 4) for axis in (0, 1) for b in range(nb) for r in range(n)]
         jobs += [(job_shift, (n, nb, it, axis, b, r, True)) for n, nb in ((6, 2), (9, 1)) for it in (1, 2, 3, 4) for axis in (0, 1) for b in range(nb) for r in (0, n // 2, n - 1)]
         jobs += [(job_poly, (n, it, axis, r, 2)) for n in (10, 12) for it in (1, 2, 3, 4) for axis in (0, 1) for r in range(n)]
+    import c14 as _c14
+    jobs += [(_c14.job_process_state, ())]      # bit-exactness presupposes the default floating-point environment and no hidden process-wide state
     chk.bounds = {'weights': 'every real f in [0,1) (exact reals); every float f for it<=2 in the IEEE theory; (1+e)-enclosure per weight for it=3,4; f=0 concrete IEEE',
                   'whole-cell shifts': 'grids 6 and 5 (quick) / 6,9 (thorough), every k with |k| < n, both axes, it=1..4, one row at a time with all n cells arbitrary finite floats (z3 FP theory, bit patterns compared; sign of zero not distinguished)',
                   'table rows (float)': 'linear interpolation, grids 9/10, every float displacement in [-2,2] of one row: index + weight == source position (IEEE theory)',
